@@ -196,13 +196,13 @@ def _parts(pid, *extra):
 
 
 _parts("C01", dict(pkg="props", test="TestC01Sweep", checks_scale=0.5), dict(pkg="props", test="TestC01Big", single=True),
-       dict(pkg="props", test="TestC01FullBuffer", single=True), dict(pkg="props", test="TestC01Overflow", single=True),
+       dict(pkg="props", test="TestC01FullBuffer", single=True), dict(pkg="props", test="TestC01FullBufferNamed", single=True), dict(pkg="props", test="TestC01Overflow", single=True),
        dict(pkg="props", test="TestC01Ring", single=True))
 PROPS["C01"]["rule"] += ("; plus a name-length sweep (entries of drawn lengths 1..255 incl. every 16k-1/16k/16k+1, multi-byte and non-UTF-8 units, created/written/removed inside plugged bursts so that each is decoded at a "
-                         "different buffer offset) and bursts of 600 (quick) / 2000 (thorough) operations handled in a few reads; a burst of 8892 name-less 16-byte records (two watched files) that fills the 64 KiB read buffer exactly, twice; "
+                         "different buffer offset) and bursts of 600 (quick) / 2000 (thorough) operations handled in a few reads; a burst of 8892 name-less 16-byte records (two watched files) that fills the 64 KiB read buffer exactly, twice; a burst of 4196 creations whose 32-byte records fill it exactly (2048 per read), run twice with the boundary shifted by 16 bytes; "
                          "and an overflow burst after which six more changes are queued behind the overflow marker: all of those must be delivered and ErrEventOverflow announced")
-_parts("C08", dict(pkg="props", test="TestC08Sweep", checks_scale=0.5))
-PROPS["C08"]["rule"] += "; plus the name-length sweep of C01 with the Add argument drawn from 8 spellings (relative, ./, trailing slashes, absolute, through a symlink, ../r/d0)"
+_parts("C08", dict(pkg="props", test="TestC08Sweep", checks_scale=0.5), dict(pkg="props", test="TestC08FullBufferNamed", single=True))
+PROPS["C08"]["rule"] += "; plus the name-length sweep of C01 with the Add argument drawn from 8 spellings (relative, ./, trailing slashes, absolute, through a symlink, ../r/d0); and the burst of 4196 creations whose named records fill the read buffer exactly"
 _parts("C10", dict(pkg="props", test="TestC10Overflow", single=True), dict(pkg="props", test="TestC10Sweep", checks_scale=0.25))
 PROPS["C10"]["rule"] += ("; plus overflow bursts (reader parked, max_queued_events + delta alternating attribute changes, delta from the seed; 1 burst quick / 10 thorough): ErrEventOverflow must arrive on Errors and nothing else (at most three values per burst), and a second burst on the same Watcher must be announced again, "
                          "then the exact oracle applies again to new operations and Add/Remove of a fresh directory must work; plus the name-length sweep of C01 (entry names of 1..255 bytes incl. every 16k-1/16k/16k+1, 239..255, "
